@@ -283,6 +283,12 @@ def run_shard(ctx, spec):
                 'PAT_HIGHSCORING_EVENT', 'PAT_LOWSCORING_EVENT'):
         g = relang.Gen(mon.P[fam], seed=ctx.seed + len(fam), ascii_only=True, maxrep=3)
         events.extend(g.many(per))
+    for fi, fam in enumerate(('PAT_TRACK', 'PAT_HURDLES', 'PAT_ROAD', 'PAT_RELAYS', 'PAT_THROWS', 'PAT_RACES_FOR_DISTANCE')):
+        # event codes with digit / blank runs of 45 / 130 / 700: the language has no length bound
+        g = relang.Gen(mon.P[fam], seed=ctx.seed * 19 + fi, ascii_only=True, maxrep=1, long_repeats=(45, 130, 700))
+        longs = [c for c in g.many(16) if len(c) > 40][:6]
+        ctx.count('eval.event-codes-longer-than-40-characters', len(longs))
+        events.extend(longs)
     events = list(dict.fromkeys(events))
     T = texts(rnd, 280 if ctx.tier == 'quick' else 1900)
     ctx.info['events'] = len(events)
